@@ -1444,7 +1444,7 @@ def run(ctx):
         shutil.rmtree(root, ignore_errors=True)
     t0 = time.time()
     an = Analysis(ctx)
-    an.shard = 6
+    an.shard = 4
     for t, rs in zip(tasks, results):
         for r in rs:
             an.one(t, r)
